@@ -859,7 +859,7 @@ def correspondence(ck):
     cases, meta = [], []
     suspects = []
     n_writer = 0
-    pool = SPECIAL + GAP_EXAMPLES + corpus.sample(corpus.lipo(), 110 if quick else 1200, ck.seed, 'c01-corr')
+    pool = SPECIAL + GAP_EXAMPLES + corpus.sample(corpus.lipo(), 110 if quick else 500, ck.seed, 'c01-corr')
     mols = []
     for smi in pool:
         try:
@@ -867,10 +867,10 @@ def correspondence(ck):
         except Exception:
             continue
         mols.append((smi, m))
-    for m in small_molecules(rng, 120 if quick else 1500):
+    for m in small_molecules(rng, 120 if quick else 600):
         mols.append((format(m, 'h'), m))
     with MorganSpy() as spy:
-        for c, mt in raw_dict_cases(spy, rng, 400 if quick else 4000):
+        for c, mt in raw_dict_cases(spy, rng, 400 if quick else 2500):
             cases.append(c)
             meta.append(mt)
             ck.case(mt, nontrivial=mt[4].startswith('Ok') and len(mt[2]) > 2)
@@ -904,7 +904,7 @@ def correspondence(ck):
                     ck.case(('corr-wk', smi, how, tuple(order[:2])), nontrivial=len(v) > 2)
                     ck.count('corr:writer-keys')
             # the whole writer model (canonical string + order) on small molecules
-            if 0 < len(m) <= 24 and n_writer < (60 if quick else 600):
+            if 0 < len(m) <= 24 and n_writer < (60 if quick else 250):
                 n_writer += 1
                 for how, v in variants[:2]:
                     order = list(v.smiles_atoms_order)
